@@ -1,12 +1,14 @@
 /-
 Driver for E6 / forecasting (C19).   msg := [sender, recipient|null, type]
 
-  {"op":"enum","grammar":G,"start":"<start>","cap":20,"depth":d,"limit":N}
+  {"op":"enum","grammar":G,"start":"<start>","depth":d,"limit":N}
       → {"certs":{"rank_ok":b,"productive":b,"msg_only":b,"walk_cert":b,"fuel":F},
-         "cases":[{"h":[msg…],"nexts":[msg…],"complete":b,"prefix":b,"nexts_cap":[msg…],"code":[msg…],
-                   "code_nocap":[msg…],"code_complete":b,"positions":k,"positions_typeonly":k'}…], "truncated":b}
+         "cases":[{"h":[msg…],"nexts":[msg…],"complete":b,"prefix":b,"code":[msg…],
+                   "code_complete":b,"positions":k,"positions_typeonly":k'}…], "truncated":b}
         every prefix of every interaction up to `depth` messages (breadth first along `nexts`)
-  {"op":"forecast","grammar":G,"start":…,"cap":…,"histories":[[msg…]…]}
+        (a "cap" key - the generator's repetition limit - is accepted and ignored: since /repo 07eb1fdf no part
+        of the forecast depends on it)
+  {"op":"forecast","grammar":G,"start":…,"histories":[[msg…]…]}
       → {"certs":…, "cases":[… as above, plus "prefix":b …]}
   {"op":"slice","grammar":G,"start":"<start>","keep":[party…],"ignore_receivers":b,"real":G''|absent}
       → {"grammar": sliceG G, "cert": sliceCert (msgLevel G)  -- hypothesis of C19_slice_commutes,
@@ -92,23 +94,21 @@ partial def eraseParties : Node → Node
 
 def eraseG (G : Grammar) : Grammar := { rules := G.rules.map (fun p => (p.1, eraseParties p.2)) }
 
-def caseOf (G : Grammar) (cap F : Nat) (start : Node) (h : List Msg) : Json :=
+def caseOf (G : Grammar) (F : Nat) (start : Node) (h : List Msg) : Json :=
   -- the partial derivations of a history nest as deep as the history is long (right recursion)
   let Fc := (h.length + 2) * (G.rules.length + 1)
-  let ps := positions G cap Fc start h
+  let ps := positions G Fc start h
   -- open bounds are unbounded in the judged language (docs/Language.md: "an infinite upper bound"; as in E2 `Valid`
-  -- and C05); `nexts_cap`: the same with the documented repetition limit (`capG`), what the visitor implements
+  -- and C05) and, since 07eb1fdf, in the visitor
   Json.mkObj [("h", jMsgs h),
     ("nexts", jMsgs (nexts G F start h).eraseDups),
     ("complete", Json.bool (complete G F start h)),
     ("prefix", Json.bool (isPrefix G F start h)),
-    ("nexts_cap", jMsgs (nexts (capG cap G) F start h).eraseDups),
-    ("code", jMsgs (codeNexts G cap Fc start h)),
-    ("code_nocap", jMsgs (codeNexts G 1000000 Fc start h)),
+    ("code", jMsgs (codeNexts G Fc start h)),
     ("code_complete", Json.bool (codeComplete G F start h)),
     ("positions", Json.num (JsonNumber.fromNat ps.length)),
     ("positions_typeonly", Json.num (JsonNumber.fromNat
-      (positions (eraseG G) cap Fc start (h.map (fun m => ⟨"", none, m.type⟩))).length))]
+      (positions (eraseG G) Fc start (h.map (fun m => ⟨"", none, m.type⟩))).length))]
 
 /-- breadth-first enumeration of the prefixes of the message-level language -/
 partial def bfs (G : Grammar) (F : Nat) (start : Node) (depth limit : Nat)
@@ -127,7 +127,6 @@ def handle (j : Json) : Except String Json := do
   | "enum" | "forecast" =>
     let G0 ← grammarOf (← j.getObjVal? "grammar")
     let startName ← j.getObjValAs? String "start"
-    let cap ← j.getObjValAs? Nat "cap"
     let G := msgLevel G0 startName
     let start : Node := .nt startName none none
     let c := certsOf G
@@ -145,7 +144,7 @@ def handle (j : Json) : Except String Json := do
           a.toList.mapM msgOfJson)
         pure (hs, false)
     return Json.mkObj [("certs", jCerts c),
-      ("cases", Json.arr (hs.map (caseOf G cap c.fuel start)).toArray),
+      ("cases", Json.arr (hs.map (caseOf G c.fuel start)).toArray),
       ("truncated", Json.bool trunc)]
   | "slice" =>
     let G ← grammarOf (← j.getObjVal? "grammar")
